@@ -238,6 +238,13 @@ def fc_specs():
         pools.trend_specs(),
         st.builds(lambda wl, reg: {"kind": "reduce", "strategy": "recursive", "wl": wl, "reg": reg, "scitype": "tabular"},
                   st.integers(1, 4), st.sampled_from(["linear", "knn"])),
+        # forecasters that define their own update (its default differs from the base class's):
+        # under strategy="update" the later folds are whatever forecaster.update(window) gives
+        st.builds(lambda d: {"kind": "gridsearch", "base": {"kind": "trend", "degree": d, "intercept": True},
+                             "grid": {"degree": [d, d + 1]}, "cv_wl": 5, "cv_step": 2, "cv_fh": 1}, st.integers(0, 1)),
+        st.builds(lambda d, wl: {"kind": "online_ensemble", "members": [{"kind": "trend", "degree": d, "intercept": True},
+                                                                      {"kind": "naive", "strategy": "mean", "sp": 1, "wl": wl}]},
+                  st.integers(0, 2), st.integers(2, 4)),
     )
 
 
